@@ -25,6 +25,22 @@ CHECKS = {
          "TLC checking of termination/no-revisit/rule-freeness on recorded derivations + model conformance"),
  "C05": ("E-sym", "SymCases.tla: the expressions handed out by Partial/Derivative.as_expression (forward symbolic route) and by early Differential components (reverse route with symbolic multipliers) are recorded and judged by TLC at every grid point against the dual-number reference (defined on the original's domain, equal value, no new variable, well-formed) and, differentiated once more through the public API, against the second-order reference; SmDiffSym+SmReduce predict the exact expression and are themselves checked against the reference",
          "TLC evaluation of recorded symbolic derivatives against the reference semantics + operational model of both symbolic routes"),
+ "C06": ("E-api", "Smoothmath.tla/SmoothmathMC.tla: the state machine over pools of shared expression objects with long-lived derivative objects (late objects switch to the symbolic path after as_expression); TLC checks RoutesAgree and AsExprStable in EVERY reachable state (all histories), and ApiTrace.tla validates recorded behaviours: every pair of recorded outcomes of the same query through different routes / early-late / before-after as_expression agrees (route matrices), early and late as_expression() are structurally equal",
+         "TLC exhaustive exploration of the API state machine (RoutesAgree in every state) + trace validation of route matrices on the real library"),
+ "C09": ("E-api", "SmoothmathMC.tla: exhaustive breadth-first exploration with VIEW <<memo, synth>> reaches the fixpoint, i.e. histories of ANY length over the modelled pools; invariant HistoryFree: in every reachable state every possible next call gives the outcome it gives on never-used copies (and the reference outcome); 8 mutant constants (dropped resets, non-recursive reset, ...) each yield a counterexample; behaviours exported from TLC (-simulate with the history variable) and directed A-B-A sequences are executed on the real library on a shared pool and call by call on fresh copies, and judged event by event by ApiTrace.tla",
+         "TLC exhaustive state-space exploration (fixpoint over histories) + mutant configs + replay of TLC behaviours + trace validation"),
+ "C10": ("E-api", "Smoothmath.tla: the pool is never modified by any action (OperandsUnchanged, trivially true of the model: the model says what unchanged means); the substance is conformance: after EVERY call of every replayed behaviour the pool's structure is re-read from the live objects and TLC checks it equals the model's heap (ApiTrace.tla), together with repr/str/hash/== fingerprints of every pool object, point, live derivative object and every expression handed out earlier",
+         "TLC trace validation with the full projected state logged after every call (structure of all shared objects) + action property on the model"),
+ "C12": ("E-algebra", "AlgebraCases.tla defines structural equality (Eq on parameter-normalised records, EqObj for points and derivative objects); TLC checks Eq is an equivalence on the fed triples and judges every recorded comparison: one-edit pairs (parameter, leaf, argument order, arity incl. prefix-related lists, sibling constructor), int/float respellings, points in permuted order, derivative objects in early/late/already-computed states, foreign objects; hash equality and set/dict lookups for equal objects",
+         "TLC evaluation of the spec's structural equality on enumerated pairs/triples vs recorded ==, !=, hash, set/dict behaviour"),
+ "C13": ("E-algebra", "AlgebraCases.tla defines the printed grammar Repr/ReprObj; TLC checks it is injective on non-equal expressions of the universe and that every recorded repr/str equals it; the harness evaluates the printed text with the public names in scope (a Python parser is outside TLA+) and TLC judges the logged round-trip verdict; unequal expressions with slightly different parameters never print identically",
+         "TLC comparison of recorded repr/str with the spec grammar + eval(repr) round trip in the harness"),
+ "C15": ("E-algebra", "AlgebraCases.tla: OperatorResult table; TLC judges every recorded operator application (-a, a+b, a-b, a*b, a/b, a**b with Expression exponents incl. integral Constants, a**k for int and integral-float k) against the unsimplified, unreordered constructor tree, and that non-expression operands / non-integral / non-positive exponents (also near-integral floats) are rejected",
+         "TLC comparison of recorded operator results with the constructor table + rejection classes"),
+ "C16": ("E-algebra", "AlgebraCases.tla: Accepts table over argument classes (n: ints, integral/non-integral floats of any sign, -0.0, inf, nan, near-integral, str, None; base: any sign, one, default, non-numeric; names: empty, word/non-word characters incl. trailing newline, non-strings; operands: foreign objects in every position of unary/binary/n-ary constructors); TLC judges raised <=> not Accepts and that parameters are reported back",
+         "TLC evaluation of the acceptance table vs recorded constructor behaviour"),
+ "C18": ("E-determinism", "Determinism.tla: the iteration order of variable-name sets is chosen nondeterministically and every observable is shown independent of it (two mutant configs must fail); conformance: the same behaviours run in separate interpreter processes for 8 (thorough: 66) hash seeds with permuted coordinate order and variable creation order, canonical traces (float.hex, structural expressions) compared byte for byte, and one of them validated by ApiTrace.tla",
+         "TLC model of set-iteration nondeterminism + cross-process byte comparison + trace validation of one process"),
 }
 m = {"version": 1,
      "setup_cmd": "cd /verif && ./bin/setup.sh",
